@@ -13,6 +13,7 @@ import mirq
 from mirq import show, access_path, AnchorMissing, const_of, walk
 from rulekit import Table
 from rules import common as C
+from rules import vocab as V
 
 TABLE = Table('C15')
 NOT_DECIDED = ('the inverse laws themselves and "shortest decimal form" (value-level; i64::to_string / str::parse trusted).')
@@ -20,11 +21,20 @@ NOT_DECIDED = ('the inverse laws themselves and "shortest decimal form" (value-l
 ENC = 'bcodec::bencoder::BEncoder'
 
 
-def enc(F, name):
-    f = [x for x in F.user_fns() if x.self_ty == ENC and x.name == name]
-    if not f:
-        raise AnchorMissing('%s::%s' % (ENC, name))
-    return f[0]
+ENC_SIG = {'add_int': r'^i64$', 'add_byte_str': r'^&\[u8\]$', 'add_list': r'^&std::vec::Vec<bcodec::bvalue::BValue>$',
+           'add_dict': r'^&std::collections::HashMap<'}
+
+
+def enc(F, role):
+    """encoder method in the role add_int / add_byte_str / add_list / add_dict, identified by the type of the value it takes"""
+    fs = [x for x in F.user_fns() if x.self_ty == ENC and x.kind == 'AssocFn' and x.argc == 2 and
+          re.search(ENC_SIG[role], x.locals[2]['ty']) and x.locals[0]['ty'].startswith('&mut ')]
+    return C.one(fs, 'encoder method taking %s' % ENC_SIG[role])
+
+
+def enc_roles(F):
+    """{function path: role} of the four appending methods"""
+    return {enc(F, r).path: r for r in ENC_SIG}
 
 
 def literals(f):
@@ -107,9 +117,7 @@ def r2(cx, rec):
     rec.need(lo == 48 and hi == 57, 'decoder-digits', M, None, 'digits range is %s..%s' % (lo, hi))
     # terminators in take_while closures
     for fn, ch in (('parse_byte_str', 58), ('extract_int', 101)):
-        f = [x for x in F.user_fns() if x.path.endswith('BDecoder::' + fn)]
-        if not f:
-            raise AnchorMissing(fn)
+        f = [V.codec_fn(F, fn)]
         tw = [bb for bb in mirq.real_calls(f[0]) if f[0].expr_call(bb)[4].get('name') == 'take_while']
         ok = False
         for bb in tw:
@@ -123,10 +131,17 @@ def r2(cx, rec):
                         rec.site(cf, bi, '%s scans until %r' % (fn, chr(ch)))
         rec.need(ok, 'terminator/' + fn, f[0], None, '%s does not scan up to %r' % (fn, chr(ch)))
     # raw re-serialisers
-    for fn, w in (('raw_list', ['l', 'e']), ('raw_dict', ['d', 'e'])):
-        f = [x for x in F.user_fns() if x.path.endswith('DeepFinder::' + fn)]
-        if not f:
-            raise AnchorMissing(fn)
+    # the two container re-serialisers of the finder: span copiers taking only (iterator, emit flag)
+    raws = [x for x in F.user_fns() if x.path.startswith('bcodec::deep_finder::') and x.kind != 'Closure' and
+            x.locals[0]['ty'].startswith('std::result::Result<std::vec::Vec<u8>') and x.argc == 2 and
+            C.params_of(x, r'Enumerate<') and C.params_of(x, r'^bool$')]
+    if len(raws) != 2:
+        raise AnchorMissing('container re-serialisers (it, flag) -> Result<Vec<u8>>: %s' % [x.path for x in raws])
+    seen_wrappers = []
+    for f0 in raws:
+        f = [f0]
+        fn = f0.name
+        w = None
         got = []
         for bi, si, s in f[0].assigns():
             for x in walk(f[0].expr_rvalue(s['rv'])):
@@ -137,9 +152,13 @@ def r2(cx, rec):
             if e[4].get('name') == 'push' and const_of(e[2][1]):
                 got.append(chr(const_of(e[2][1])[0]))
         rec.site(f[0], None, '%s wraps with %s' % (fn, got))
-        rec.need(got == w, 'raw-wrapper/' + fn, f[0], None, '%s wraps with %s, expected %s' % (fn, got, w))
+        seen_wrappers.append(tuple(got))
+        role = {('l', 'e'): 'raw_list', ('d', 'e'): 'raw_dict'}.get(tuple(got))
+        rec.need(role is not None, 'raw-wrapper/' + fn, f[0], None, '%s wraps with %s, expected l..e or d..e' % (fn, got))
+    rec.need(sorted(seen_wrappers) == [('d', 'e'), ('l', 'e')], 'raw-wrapper/pair', raws[0], None,
+             'the two container re-serialisers wrap with %s, expected one l..e and one d..e' % sorted(seen_wrappers))
     for fn, w in (('parse_int', ['i', 'e']), ('parse_byte_str', [':'])):
-        f = [x for x in F.user_fns() if x.path.endswith('BDecoder::' + fn)][0]
+        f = V.codec_fn(F, fn)
         got = []
         for bi, si, s in f.assigns():
             for x in walk(f.expr_rvalue(s['rv'])):
@@ -167,21 +186,22 @@ def r3(cx, rec):
                 if v == '_':
                     continue
                 reg = f.only_via_edge((sb, tgt)) | {tgt}
-                calls = [(bb, f.expr_call(bb)) for bb in mirq.real_calls(f) if bb in reg and f.expr_call(bb)[1].startswith(ENC + '::add_')]
+                ER = enc_roles(F)
+                calls = [(bb, f.expr_call(bb)) for bb in mirq.real_calls(f) if bb in reg and f.expr_call(bb)[1] in ER]
                 # emissions of the same loop iteration that precede the dispatch (a key hoisted out of the arms)
                 nxt = [bb for bb in mirq.real_calls(f) if f.expr_call(bb)[1] == 'std::iter::Iterator::next' and sb in f.reach_from(bb) and bb in f.reach_from(sb)]
                 if nxt:
                     between = f.reach_from(nxt[-1], cut_blocks=[sb])
                     pre = [(bb, f.expr_call(bb)) for bb in mirq.real_calls(f)
-                           if bb in between and bb not in reg and f.expr_call(bb)[1].startswith(ENC + '::add_') and sb in f.reach_from(bb, cut_blocks=[nxt[-1]])]
+                           if bb in between and bb not in reg and f.expr_call(bb)[1] in ER and sb in f.reach_from(bb, cut_blocks=[nxt[-1]])]
                     ok_dom, _ = C.must_pass(f, [bb for bb, c in pre], [sb], start=nxt[-1]) if pre else (True, None)
                     if pre and ok_dom:
                         calls = pre + calls
-                names = [c[1].split('::')[-1] for bb, c in calls]
+                names = [ER[c[1]] for bb, c in calls]
                 rec.site(f, tgt, '%s: %s -> %s' % (name, v, names))
                 for bb, c in calls:
                     recv = c[2][0]
-                    while recv[0] == 'call' and recv[1].startswith(ENC + '::add_'):
+                    while recv[0] == 'call' and recv[1] in ER:
                         recv = recv[2][0]
                     rinit = mirq.init_of(recv)
                     okr = recv[0] in ('var', 'mvar') and rinit[0] == 'call' and rinit[1].endswith('BEncoder::new')
@@ -191,7 +211,7 @@ def r3(cx, rec):
                 exp = (['add_byte_str'] if name == 'add_dict' else []) + [want[v]]
                 rec.need(names == exp, 'variant-encoder/%s/%s' % (name, v), f, tgt, '%s encodes %s with %s (expected %s)' % (name, v, names, exp))
                 for bb, c in calls:
-                    if c[1].endswith(want[v]) and not (name == 'add_dict' and c[1].endswith('add_byte_str') and v != 'ByteStr' and False):
+                    if ER[c[1]] == want[v]:
                         arg = show(c[2][1])
                         if c is calls[-1][1]:
                             rec.need(('<%s>.0' % v) in arg, 'variant-payload/%s/%s' % (name, v), f, bb, '%s passes %s to %s' % (v, arg[-50:], want[v]))
